@@ -43,7 +43,13 @@ def source_case(draw, big=False):
     nph = max(0, min(nph, (4 if big else 3) - hp))
     vin = draw(gen.fock_state(nv, nph))
     thr = draw(st.sampled_from([0, 0, 0, 1e-3, 0.05]))
-    return {"prog": prog, "input": vin, "brightness": draw(bright), "purity": draw(purity),
+    pur = draw(purity)
+    # cost bound by construction: with purity < 1 every photon may come with a second one, so the exact distributions
+    # live on up to 2 x (input + herald photons) photons; where that space is large the noise photons are switched off
+    modes, n_loss, _ = gen.dims(prog)
+    if pur < 1 and math.comb(modes + n_loss + 2 * (nph + hp) - 1, 2 * (nph + hp)) > 3000:
+        pur = 1.0
+    return {"prog": prog, "input": vin, "brightness": draw(bright), "purity": pur,
             "indist": draw(indist), "threshold": thr,
             "backend": draw(st.sampled_from(["permanent", "slos"]))}
 
